@@ -152,7 +152,8 @@ struct Layout : Profile {
     {
         return {"chunked", "chunked+compressed", "chunked+nbit", "compressed", "nbit", "external", "blocksize", "edge-chunk", "chunk-write",
                 "chunk-read", "cache-1", "fill-checked", "reopen", "unlimited-grow", "strided-read", "chunk-larger-than-extent",
-                "layout-selected-later", "high-rank", "rank>=19", "gr-chunked", "gr-chunked+compressed", "gr-compressed", "gr-chunk-write", "gr-chunk-read", "gr-chunk-read-interlaced"};
+                "layout-selected-later", "high-rank", "rank>=19", "gr-chunked", "gr-chunked+compressed", "gr-compressed", "gr-chunk-write", "gr-chunk-read", "gr-chunk-read-interlaced", "gr-chunk-read-interlaced-nonsquare",
+                "gr-chunk-write-interlaced-nonsquare"};
     }
 
     // ------------------------------------------------------------------ generator
@@ -611,18 +612,17 @@ struct Layout : Profile {
                 return false;
             for (int v = 0; v < g.nvar; v++)
                 gsel(s, v);
-            // known finding C04-gr-chunk-interlace: whole-chunk calls on non-square chunks convert a non-pixel interlace
-            // with the chunk's height taken for its width
+            // (whole-chunk calls on non-square chunks with a non-pixel interlace used to be guarded: repaired, findings/fixed)
             GVar &x = g.v[cv];
             if (k == "gwchunk") {
-                if (g.il != MFGR_INTERLACE_PIXEL && x.c0 != x.c1 && g.nc > 1 && ctx.plan.knob("unguard_gr_chunk_il", 0) == 0)
-                    return false;
+                if (g.il != MFGR_INTERLACE_PIXEL && x.c0 != x.c1 && g.nc > 1)
+                    ctx.probe("gr-chunk-write-interlaced-nonsquare");
                 gwrite(s, x0, y0, cx, cy, (uint64_t)o.arg(3), cv, origin);
                 return true;
             }
             int il = modn(o.arg(3), 3);
-            if (il != MFGR_INTERLACE_PIXEL && x.c0 != x.c1 && g.nc > 1 && ctx.plan.knob("unguard_gr_chunk_il", 0) == 0)
-                il = MFGR_INTERLACE_PIXEL;
+            if (il != MFGR_INTERLACE_PIXEL && x.c0 != x.c1 && g.nc > 1)
+                ctx.probe("gr-chunk-read-interlaced-nonsquare");
             int32 ri = gsel(s, cv);
             if (GRreqimageil(ri, il) == FAIL)
                 ctx.fail("read-refused", "read-refused:reqil", "GRreqimageil failed");
